@@ -265,6 +265,30 @@ fn exhaustive_size(id: u8, w: u32, h: u32, rep: &mut Report) {
         m.apply(&Op::Fill(false), rep);
         m.apply(&Op::Fill(true), rep);
     }
+    // If a page can be built over a buffer that is LONGER than the padded size (it should not: that is C07's business),
+    // the bounds rules must hold on it all the same: x >= width and y >= height panic, and nothing outside the pixel
+    // area is ever written.
+    for extra in [1usize, 16, 32] {
+        let long: Vec<u8> = (0..refs::padded_len(w, h) + extra).map(|i| (i as u8).wrapping_mul(31) | 1).collect();
+        if let Ok(mut page) = Page::from_bytes(w, h, &long[..]) {
+            rep.count("overlong_pages_accepted_by_from_bytes");
+            let data_end = 4 + (w as usize) * refs::col_bytes(h);
+            for (x, y) in oob_coords(w, h) {
+                let before = page.as_bytes().to_vec();
+                let g = catch(|| page.get_pixel(x, y));
+                let s1 = catch(|| page.set_pixel(x, y, true));
+                let s0 = catch(|| page.set_pixel(x, y, false));
+                if g.is_ok() || s1.is_ok() || s0.is_ok() || page.as_bytes() != &before[..] {
+                    rep.violation(MON, "oob_on_overlong_page", &format!("{}x{}+{}:({},{})", w, h, extra, x, y), format!("{}x{} page over a buffer {} byte(s) too long: coordinate ({},{}) did not panic (get {:?}) or changed bytes", w, h, extra, x, y, g.ok()), J::Null);
+                    break;
+                }
+            }
+            let before = page.as_bytes().to_vec();
+            if catch(|| page.set_all_pixels(false)).is_ok() && page.as_bytes()[data_end..] != before[data_end..] {
+                rep.violation(MON, "set_all_outside_pixel_area", &format!("{}x{}+{}", w, h, extra), format!("{}x{} page over a buffer {} byte(s) too long: set_all_pixels wrote outside the pixel area", w, h, extra), J::Null);
+            }
+        }
+    }
     if w > 0 && h > 0 {
         rep.count("nondegenerate_sizes");
     }
